@@ -2,7 +2,8 @@
 
 Decides the iteration-boundary protocol: loop shape of every search algorithm,
 the resources_left quantifier, the counter/limit discipline of the three
-counting conditions, and the observer wiring that feeds the counters.
+counting conditions, the observer wiring that feeds the counters, and that nothing
+before the counter reset (before_search_start) is a call on or with the algorithm object.
 Wall-clock / memory conditions are value-level and not decided.
 """
 
